@@ -127,7 +127,8 @@ def compare(sx, acc, rec, pos_acc, pos_ref, pre):
     """real accessor `acc` (at pos_acc) against the reference model `rec` (at pos_ref)"""
     from geckolib.driver import GeckoStructure
     from sx.loader import STRUCT_SHIM
-    blk = sx.block("block", 1024)
+    tag_ = "" if pre == "eq" else "_" + pre.split(".", 1)[-1]
+    blk = sx.block("block" + tag_, 1024)
     writes = []
     st = GeckoStructure(lambda p, n, v: writes.append((p, n, v)))
     st.set_status_block(blk)
@@ -136,7 +137,7 @@ def compare(sx, acc, rec, pos_acc, pos_ref, pre):
     acc.struct = st
     acc.pos = pos_acc
     # ---- read (mode 0) / write (mode 1) are explored on separate paths
-    mode = sx.choice("mode", 2)
+    mode = sx.choice("mode" + tag_, 2)
     rraw = refmodel.raw(rec, blk, pos_ref)
     if mode == 1:
         pass
@@ -165,7 +166,7 @@ def compare(sx, acc, rec, pos_acc, pos_ref, pre):
         return      # encoding of temperatures: C14
     # ---- write
     a_like = type("A", (), {"type": rec["type"], "items": rec["labels"], "bitpos": rec["bitpos"]})()
-    v, _ = c02._values(sx, a_like)
+    v, _ = c02._values(sx, a_like, tag_.lstrip('_') + ('.' if tag_ else ''))
     try:
         acc._set_value(v)
     except ValueError:
